@@ -88,6 +88,13 @@ void SimBackend::InitCustomOptions() {
   AddOptionSynonyms_OutOfLine("OOL_FlagOpt", "tech:flagopt");
   AddSolveResults({{mp::sol::FAILURE + 1, "fatal error 1"},
                    {mp::sol::LIMIT_FEAS_NEW + 1, "AI iteration limit, feasible solution"}});
+  // further driver-specific result codes / ranges, registered the way a real driver would (scenario: script.extra_results)
+  const sim::Json& xr = g_script["extra_results"];
+  if (xr.is_arr() && xr.size()) {
+    mp::SolveResultRegistry::SRRegMap extra;
+    for (auto& e : xr.arr()) extra.insert({(int)e[(size_t)0].as_int(), (int)e[(size_t)1].as_int(), e[(size_t)2].as_str()});
+    AddSolveResults(extra, g_script["extra_replace"].as_bool());
+  }
 }
 
 bool SimBackend::IsMIP() const { return BaseBackend::IsMIP(); }
